@@ -505,6 +505,7 @@ pub trait GarnishData: Sized {
     fn add_to_list(&mut self, list_index: Self::Size, item_index: Self::Size) -> (r: Result<Self::Size, Self::Error>)
         ensures
             r matches Ok(l) ==> grows(old(self).st(), final(self).st()) && old(self).st().building.contains_key(list_index)
+                && (l == list_index || !old(self).st().building.contains_key(l))
                 && final(self).st() == (St { cells: final(self).st().cells, data_len: final(self).st().data_len,
                         building: old(self).st().building.remove(list_index).insert(l, Building { cap: old(self).st().building[list_index].cap, items: old(self).st().building[list_index].items.push(item_index) }), ..old(self).st() });
 
@@ -648,6 +649,8 @@ pub trait GarnishData: Sized {
             forall|a: Self::Size, b: Self::Size, c: Self::Size| #![auto] call_ensures(<Self::Size as Add>::add, (a, b), c) ==> Self::sv(c) == Self::sv(a) + Self::sv(b),
             forall|a: Self::Size, b: Self::Size| #![auto] call_requires(<Self::Size as Sub>::sub, (a, b)) <== Self::sv(a) >= Self::sv(b),
             forall|a: Self::Size, b: Self::Size, c: Self::Size| #![auto] call_ensures(<Self::Size as Sub>::sub, (a, b), c) ==> Self::sv(c) == Self::sv(a) - Self::sv(b),
+            forall|a: &mut Self::Size, b: Self::Size| #![auto] call_requires(<Self::Size as AddAssign>::add_assign, (a, b)),
+            forall|a: &mut Self::Size, b: Self::Size| #![auto] call_ensures(<Self::Size as AddAssign>::add_assign, (a, b), ()) ==> Self::sv(*final(a)) == Self::sv(*a) + Self::sv(b),
             forall|a: Self::Size, b: Self::Size| #![auto] call_requires(<Self::Size as PartialOrd>::lt, (&a, &b)),
             forall|a: Self::Size, b: Self::Size, c: bool| #![auto] call_ensures(<Self::Size as PartialOrd>::lt, (&a, &b), c) ==> c == (Self::sv(a) < Self::sv(b)),
             forall|a: Self::Size, b: Self::Size| #![auto] call_requires(<Self::Size as PartialOrd>::gt, (&a, &b)),
